@@ -435,7 +435,7 @@ def collides (large : SMap Zip) (zr : Ref) (z : Zip) : Bool :=
 
 inductive ZipOut where
   /-- the zip was stored and indexed (the loose-blob deletion may have failed: it is only logged) -/
-  | stored (s : St) (bud : Budget) (zr : Ref) (consumed dataLen : Nat)
+  | stored (s : St) (bud : Budget) (zr : Ref) (consumed dataLen dataStart zsize : Nat)
   | retry (trunc : Ref)
   /-- an error return; the state may have changed (zip stored, meta batch failed) -/
   | fail (s : St) (bud : Budget)
@@ -489,9 +489,21 @@ def writeAZip (env : PackEnv) (nameOK : Bool) (tbl : List Chunk) (wholeRef : Ref
                 else
                   let s2 := commitZip s1 l.ref z wbw
                   let r := delSmallB s2 t2.2 (f.written.map (·.1) ++ f.schemaBlobs.map (·.1))
-                  (.stored r.1 r.2 l.ref f.written.length data.length, f.overflowed)
+                  (.stored r.1 r.2 l.ref f.written.length data.length l.dataStart l.size, f.overflowed)
 
 /-! ## pack :1201 -/
+
+/-- a zip stored by a pack: its ref, the offset of its data in the whole file, its part index, its data length -/
+structure ZipRec where
+  zr : Ref
+  off : Nat
+  idx : Nat
+  len : Nat
+  /-- where the data of the first file starts inside the zip -/
+  ds : Nat
+  /-- byte size of the zip -/
+  zsize : Nat
+deriving DecidableEq, Repr
 
 structure PackRes where
   s : St
@@ -500,14 +512,14 @@ structure PackRes where
   ok : Bool
   truncs : Nat
   overflows : Nat
-  /-- zips stored by this pack: (zip ref, data offset in the whole file) -/
-  zips : List (Ref × Nat)
+  /-- zips stored by this pack, in order -/
+  zips : List ZipRec
   outOfFuel : Bool
 deriving Repr
 
 /-- the loop `MakingZips` :1235-1248 and the final row :1251 -/
 def packLoop (env : PackEnv) (nameOK : Bool) (tbl : List Chunk) (wholeRef : Ref) (wholeSize : Nat) :
-    Nat → St → Budget → List Ref → Nat → Nat → Option Ref → List ZipLayout → Nat → Nat → List (Ref × Nat) → PackRes
+    Nat → St → Budget → List Ref → Nat → Nat → Option Ref → List ZipLayout → Nat → Nat → List ZipRec → PackRes
   | 0, s, bud, _, _, _, _, _, t, o, zs => ⟨s, bud, false, t, o, zs, true⟩
   | fuel + 1, s, bud, remain, nZips, wbw, trunc, lays, t, o, zs =>
     if remain.isEmpty then
@@ -519,9 +531,9 @@ def packLoop (env : PackEnv) (nameOK : Bool) (tbl : List Chunk) (wholeRef : Ref)
       match r.1 with
       | .fail s' bud' => ⟨s', bud', false, t, o', zs, false⟩
       | .retry tr => packLoop env nameOK tbl wholeRef wholeSize fuel s bud remain nZips wbw (some tr) lays.tail (t + 1) o' zs
-      | .stored s' bud' zr n len =>
+      | .stored s' bud' zr n len ds zsize =>
         packLoop env nameOK tbl wholeRef wholeSize fuel s' bud' (remain.drop n) (nZips + 1) (wbw + len) none lays.tail t o'
-          (zs ++ [(zr, wbw)])
+          (zs ++ [⟨zr, wbw, nZips, len, ds, zsize⟩])
 
 def scanFuel : Nat := 100000
 
